@@ -331,6 +331,9 @@ func parseLoadFile88(reader io.Reader, coresize Address) (WarriorData, error) {
 
 			// no arguments
 			if len(fields) == 1 {
+				if fields[0] == "org" {
+					return WarriorData{}, fmt.Errorf("line %d: 'org' requires 1 argument", lineNum)
+				}
 				break
 			}
 
